@@ -9,6 +9,10 @@ mod events;
 mod curve;
 mod reader;
 mod records;
+mod roundtrip;
+mod codec;
+mod gen;
+mod relations;
 
 use util::*;
 
@@ -32,6 +36,9 @@ fn main() {
         ("reader", "replay") => reader::replay(&args, &mut s),
         ("reader", "relations") => reader::relations(&args, &mut s),
         ("records", "replay") => records::replay(&args, &mut s),
+        ("pathcodec", "replay") => codec::path_replay(&args, &mut s),
+        ("encoder", "relations") => relations::encoder_relations(&args, &mut s),
+        ("timingcodec", "replay") => codec::timing_replay(&args, &mut s),
         (m, o) => {
             eprintln!("unknown module/mode {m} {o}");
             std::process::exit(2);
